@@ -33,6 +33,12 @@ type c15Case struct {
 	AutnXor []byte `json:"autn_xor"` // 16 non-zero masks: single-octet corruption i is AUTN[i] ^= AutnXor[i]
 	AutsXor []byte `json:"auts_xor"` // 14 non-zero masks
 	RandMAC []byte `json:"rand_mac"` // 8 octets replacing MAC-A altogether
+	PairXor []byte `json:"pair_xor"` // 2 non-zero masks for the two-octet corruptions of MAC-A / MAC-S
+	// history: after this evaluation the library is used for a VARIANT that shares some of the inputs (same K and
+	// RAND under another OP, same OP and RAND under another K, same K and OP with another RAND), then for this
+	// case again — the results must be those of the arguments of each call
+	Variant      string `json:"variant,omitempty"` // "" | other-op | other-k | other-rand
+	VariantBytes []byte `json:"variant_bytes,omitempty"`
 }
 
 func add48(b []byte, d int64) ([]byte, bool) {
@@ -70,7 +76,12 @@ func genNonZero(t *rapid.T, n int, label string) []byte {
 
 func genC15(t *rapid.T) c15Case {
 	c := c15Case{K: gen128(t, "k"), OP: gen128(t, "op"), RAND: gen128(t, "rand"), AMF: genBytes(t, 2, "amf"),
-		AutnXor: genNonZero(t, 16, "autn_xor"), AutsXor: genNonZero(t, 14, "auts_xor"), RandMAC: genBytes(t, 8, "rand_mac")}
+		AutnXor: genNonZero(t, 16, "autn_xor"), AutsXor: genNonZero(t, 14, "auts_xor"), RandMAC: genBytes(t, 8, "rand_mac"),
+		PairXor: genNonZero(t, 2, "pair_xor")}
+	if rapid.IntRange(0, 2).Draw(t, "history") == 0 {
+		c.Variant = rapid.SampledFrom([]string{"other-op", "other-op", "other-k", "other-rand"}).Draw(t, "variant")
+		c.VariantBytes = gen128(t, "variant_bytes")
+	}
 	c.Pair = rapid.SampledFrom(c15Pairs).Draw(t, "pair")
 	ue := genSQN(t, "sqn_ue")
 	net := append([]byte{}, ue...)
@@ -154,10 +165,40 @@ func d15Predict(r refsec.AKAResult, k, opc, rnd [16]byte, autn [16]byte, sqnUE [
 }
 
 func c15Oracle(r *ev.Rec) func(c15Case) ev.Verdict {
+	one := c15One(r)
+	return func(c c15Case) ev.Verdict {
+		v := one(c)
+		if v.Err != nil || v.Skip || c.Variant == "" || len(c.VariantBytes) != 16 {
+			return v
+		}
+		w := c
+		w.Variant = ""
+		switch c.Variant {
+		case "other-op":
+			w.OP = c.VariantBytes
+		case "other-k":
+			w.K = c.VariantBytes
+		case "other-rand":
+			w.RAND = c.VariantBytes
+		}
+		for step, x := range []c15Case{w, c} {
+			if vv := one(x); vv.Err != nil {
+				vv.Key = "history:" + vv.Key
+				vv.Err = fmt.Errorf("evaluation %d of the history (this case, then the same with %s, then this case again): %v", step+2, c.Variant, vv.Err)
+				vv.Classes = v.Classes
+				return vv
+			}
+		}
+		v.Classes = append(v.Classes, "history:"+c.Variant)
+		return v
+	}
+}
+
+func c15One(r *ev.Rec) func(c15Case) ev.Verdict {
 	return func(c c15Case) ev.Verdict {
 		v := ev.Verdict{NT: true, Classes: []string{"pair:" + c.Pair}}
 		if len(c.K) != 16 || len(c.OP) != 16 || len(c.RAND) != 16 || len(c.AMF) != 2 || len(c.SQNNet) != 6 || len(c.SQNUE) != 6 ||
-			len(c.AutnXor) != 16 || len(c.AutsXor) != 14 || len(c.RandMAC) != 8 {
+			len(c.AutnXor) != 16 || len(c.AutsXor) != 14 || len(c.RandMAC) != 8 || len(c.PairXor) != 2 {
 			v.Skip = true
 			return v
 		}
@@ -284,6 +325,21 @@ func c15Oracle(r *ev.Rec) func(c15Case) ev.Verdict {
 			}
 		}
 		r.Class("check:autn-octet", 16)
+		// two octets of MAC-A corrupted at once: every pair of positions, once with the same mask on both and once
+		// with two different masks
+		for i := 8; i < 16; i++ {
+			for j := i + 1; j < 16; j++ {
+				for _, m := range [][2]byte{{c.PairXor[0], c.PairXor[0]}, {c.PairXor[0], c.PairXor[1]}} {
+					a := wantAutn
+					a[i] ^= m[0]
+					a[j] ^= m[1]
+					if f := check(fmt.Sprintf("AUTN octets %d,%d ^= %02x,%02x", i, j, m[0], m[1]), a); f != nil {
+						return *f
+					}
+				}
+			}
+		}
+		r.Class("check:autn-mac-octet-pair", 56)
 		{
 			a := wantAutn
 			copy(a[8:], c.RandMAC)
@@ -327,6 +383,19 @@ func c15Oracle(r *ev.Rec) func(c15Case) ev.Verdict {
 			}
 		}
 		r.Class("auts:octet", 14)
+		for i := 6; i < 14; i++ {
+			for j := i + 1; j < 14; j++ {
+				for _, m := range [][2]byte{{c.PairXor[0], c.PairXor[0]}, {c.PairXor[0], c.PairXor[1]}} {
+					a := wantAuts
+					a[i] ^= m[0]
+					a[j] ^= m[1]
+					if f := hss(fmt.Sprintf("AUTS octets %d,%d ^= %02x,%02x", i, j, m[0], m[1]), a); f != nil {
+						return *f
+					}
+				}
+			}
+		}
+		r.Class("auts:mac-octet-pair", 56)
 		usim := refsec.USIM(k, opc, rnd, wantAutn, sqnUE)
 		if usim.Fresh {
 			v.Classes = append(v.Classes, "valid:fresh")
